@@ -110,6 +110,10 @@ type distCase struct {
 	Script     []randOp `json:"rand_script,omitempty"`
 	// Repeat > 1: the Rates pattern is repeated that many times (many consecutive cycles)
 	Repeat int `json:"repeat,omitempty"`
+	// StepsNs: how far the time stamp handed to the distributed rate advances from one sub-tick to the
+	// next (cyclic); empty = punctual 100 ms. A cycle is N sub-ticks whatever their time stamps: a real
+	// ticker delivers late, coalesced and dropped ticks, and `chart` steps a synthetic clock.
+	StepsNs []int64 `json:"timestamp_steps_ns,omitempty"`
 }
 
 func mkCase(dist string, interval time.Duration, rates []int) distCase {
@@ -119,7 +123,7 @@ func mkCase(dist string, interval time.Duration, rates []int) distCase {
 
 func (c distCase) key() string {
 	var b strings.Builder
-	fmt.Fprintf(&b, "%s/%d/%v/%d/%s/%d/", c.Dist, c.IntervalNs, c.Rates, c.Repeat, c.RandMode, c.RandSeed)
+	fmt.Fprintf(&b, "%s/%d/%v/%d/%s/%d/%v/", c.Dist, c.IntervalNs, c.Rates, c.Repeat, c.RandMode, c.RandSeed, c.StepsNs)
 	for _, op := range c.Script {
 		fmt.Fprintf(&b, "%d:%d,", op.K, op.V)
 	}
@@ -231,11 +235,17 @@ func run(c distCase) (msg string, obs observed) {
 	}
 	n := int(interval / subTick) // N = floor(interval / 100 ms)
 	step := int64(0)
+	stamp := base
 	for cyc := int64(0); cyc < totalCycles; cyc++ {
 		var sum int64
 		lo, hi := math.MaxInt, math.MinInt
 		for s := 0; s < n; s++ {
-			v := fn(base.Add(time.Duration(step) * subTick))
+			v := fn(stamp)
+			if len(c.StepsNs) > 0 {
+				stamp = stamp.Add(time.Duration(c.StepsNs[step%int64(len(c.StepsNs))]))
+			} else {
+				stamp = stamp.Add(subTick)
+			}
 			step++
 			if v < 0 {
 				return fmt.Sprintf("cycle %d sub-tick %d: negative value %d", cyc+1, s+1, v), obs
@@ -300,6 +310,9 @@ func classes(c distCase, obs observed) []string {
 	}
 	if c.IntervalNs%int64(subTick) != 0 {
 		cls = append(cls, "interval-not-multiple-of-100ms")
+	}
+	if len(c.StepsNs) > 0 {
+		cls = append(cls, "unpunctual-timestamps")
 	}
 	var zero, below, mult, top, big bool
 	for _, r := range c.Rates {
@@ -455,6 +468,11 @@ func genCase(t *rapid.T) distCase {
 	c := mkCase(dist, interval, rates)
 	if dist == "random" {
 		genRand(t, &c)
+	}
+	if rapid.IntRange(0, 2).Draw(t, "unpunctual") == 0 {
+		// late, coalesced (equal stamps), dropped (a multiple of 100 ms) ticks, a coarse or a stepped-back clock
+		c.StepsNs = rapid.SliceOfN(rapid.SampledFrom([]int64{0, int64(subTick), int64(subTick), int64(subTick) + 1, 111_000_000, 150_000_000,
+			200_000_000, 250_000_000, int64(time.Second), -int64(subTick)}), 1, 8).Draw(t, "timestampSteps")
 	}
 	return c
 }
